@@ -77,6 +77,7 @@ def _match_name(rest, names):
 def parse(text):
     """Source text -> (root Blk, [problems found while matching])."""
     root = Blk("root", "root", 0, "", None)
+    root.linemap = {}
     cur = root
     problems = []
     pending_acc = None      # an '!$acc loop' waiting for its DO
@@ -103,6 +104,8 @@ def parse(text):
                getattr(cur.children[0], "closed", False) and
                " ".join(low.split()) != "!$" + "omp end " + cur.name[4:]):
             cur = cur.parent
+        root.linemap[lno] = (_label(low), _dirname(
+            pending_acc if pending_acc is not None else cur))
         if low.startswith("!$"):
             mat = re.match(r"!\$(omp|acc)\s+(.*)$", low)
             if not mat:
@@ -193,6 +196,34 @@ def parse(text):
     return root, problems
 
 
+def _dirname(blk):
+    """Name of the closest directive block at or above blk ('none')."""
+    while blk is not None:
+        if blk.kind in ("dir", "accloop"):
+            return blk.name
+        blk = blk.parent
+    return "none"
+
+
+def _label(low):
+    """Short class of a source line for signatures."""
+    mat = re.match(r"!\$(omp|acc)\s+(end\s+)?(.*)$", low)
+    if mat:
+        fam, end, rest = mat.group(1), mat.group(2), " ".join(
+            mat.group(3).split())
+        names = (_OMP_BLOCK + _OMP_ALONE) if fam == "omp" else \
+            (_ACC_BLOCK + ["loop"] + _ACC_ALONE)
+        name = _match_name(rest, names) or "?"
+        return ("end " if end else "") + f"{fam} {name}"
+    if re.match(r"(\w+\s*:\s*)?do(\s+\w+\s*=|\s+while\b|\s*$)", low):
+        return "do"
+    if re.match(r"end\s*do\b", low):
+        return "enddo"
+    if re.match(r"(end\s*)?(subroutine|function|program|module)\b", low):
+        return "unit"
+    return "stmt"
+
+
 def _collapse(rest):
     mat = re.search(r"\bcollapse\s*\(\s*(\d+)\s*\)", rest)
     return int(mat.group(1)) if mat else None
@@ -204,26 +235,11 @@ def walk(node):
         yield from walk(child)
 
 
-def _enclosing_dir(node):
-    for anc in node.ancestors():
-        if anc.kind in ("dir", "accloop"):
-            return anc
-    return None
-
-
 def context_of_line(root, line):
-    """(directive name at that line or 'stmt', name of the closest enclosing
-    directive or 'none') - used to make compiler-error signatures specific."""
-    best = None
-    for node in walk(root):
-        if node.line == line:
-            best = node
-            break
-    if best is None:
-        return ("?", "?")
-    here = best.name if best.kind in ("dir", "accloop", "alone") else best.kind
-    enc = _enclosing_dir(best)
-    return (here, enc.name if enc else "none")
+    """(class of the source line, name of the closest directive block that was
+    open when the line was read or 'none') - used to make compiler-error
+    signatures specific."""
+    return root.linemap.get(line, ("?", "?"))
 
 
 def check(text):
